@@ -65,16 +65,18 @@ def r1_only_error_codes(ctx):
                 ctx.check(R, key, True, "widening conversion from ClientErrorStatusCode (already 4xx)", (f, bb))
                 continue
             preds = [r"StatusCode::is_client_error$", r"StatusCode::is_server_error$"] if adt == ESC else [r"StatusCode::is_client_error$"]
-            edges = []
-            for sbb, tb, node in _guards(f, None, preds):
-                # predicate applied to the same status value that is wrapped
-                ps = f.slice(node["args"][0])
+            # predicate calls applied to the same status value that is wrapped (path-sensitive: `a || b`, a named flag,
+            # an early return on the negation and a match on the bool are all the same guard)
+            atoms = []
+            for pbb, pt in f.live_calls("|".join(preds)):
+                ps = f.slice(pt["args"][0])
                 same = bool(set(ps.param_fields()) & set(sl.param_fields())) or bool((ps.locals() & sl.locals()) - {0})
                 if same and not callee_allow(ps, PLUMBING):
-                    edges.append((sbb, tb))
-            unguarded = bb in f.reachable(0, avoid_edges=edges)
-            ctx.check(R, key, bool(edges) and not unguarded,
-                      "every path to the aggregate passes a true edge of %s on the wrapped status: %s (%d guard edge(s))" % (" / ".join(p.split("::")[-1].rstrip("$") for p in preds), not unguarded and bool(edges), len(edges)), (f, bb))
+                    atoms.append(("call", pbb))
+            ok, cex = f.guarded_by(bb, atoms_true=atoms) if atoms else (False, "no predicate on the wrapped status")
+            ctx.check(R, key, ok,
+                      "every path to the aggregate has established %s on the wrapped status: %s%s" % (" or ".join(p.split("::")[-1].rstrip("$") + "()" for p in preds), ok,
+                                                                                                  "" if ok else " (facts on an unguarded path: %s)" % (cex,)), (f, bb))
     for adt in (ESC, CESC):
         a = ctx.ds.adts.get(adt)
         if not a:
@@ -93,8 +95,12 @@ def r1_only_error_codes(ctx):
         if f is None:
             ctx.lost(R, "%s::from_u16" % adt)
             continue
-        ret = f.slice({"l": 0, "p": []})
-        ctx.check(R, "from_u16-via-from_status:%s" % adt, ret.has_call(r"error_status_code::%s::from_status$" % adt) and ret.has_call(r"http::StatusCode::from_u16$") and not list(f.aggregates(r"ErrorStatusCode$")),
+        reg = [f] + ctx.ds.descendants(f)
+        via = any(g.live_calls(r"error_status_code::%s::from_status$" % adt) for g in reg) or any(
+            a[0] == "fnitem" and a[1].endswith("error_status_code::%s::from_status" % adt) for g in reg for a in g.slice({"l": 0, "p": []}).atoms)
+        raw = any(g.live_calls(r"http::StatusCode::from_u16$") for g in reg)
+        direct = [g.id for g in reg for _ in g.aggregates(r"^error_status_code::(Client)?ErrorStatusCode$")]
+        ctx.check(R, "from_u16-via-from_status:%s" % adt, via and raw and not direct,
                   "from_u16 = StatusCode::from_u16 then from_status", f)
 
 
